@@ -23,6 +23,12 @@ Definition localStress (k : T * T * T * T) (q : quat T) (w0 : vec3 T) (pullback 
   let tmp := ((- k0) * (w_0 - r0) / len, (- k1) * (w_1 - r1) / len, (- k2) * (w_2 - r2) / len) in
   if pullback then rotVecQuat tmp (negQuat q) else tmp.
 
+(* constructor: reference curvature omega0 of a body.  bq = m->body_quat of the body, q0 = the
+   quaternion of ITS rotational (ball / free) joint in qpos0 -- wherever that joint sits among the
+   joints of the body; zero for the first body and for flat cables *)
+Definition cable_omega0 (flat has_prev : bool) (bq q0 : quat T) : vec3 T :=
+  if has_prev && negb flat then subQuat bq q0 else zero3.
+
 (* per-body inputs of Cable::Compute *)
 Record CBody := mkCBody {
   c_bq : quat T;            (* m->body_quat of the body *)
